@@ -25,7 +25,9 @@
 (***************************************************************************)
 EXTENDS Naturals, Sequences, TLC, Json
 
-NvLeaves == <<"_", "use-defsrc">>
+\* `rpt-any` is position dependent by proxy: it performs the most recent action again at the position of the key that
+\* carries it; key c of the family is (multi use-defsrc lsft), so after c was pressed the repeated action looks up defsrc
+NvLeaves == <<"_", "use-defsrc", "rpt-any">>
 NvFill == <<"x", "y", "z">>           \* plain keys in the positions not under test
 NvT == "20"                            \* every timeout of the family (ticks); NvLong outlasts any two nested ones
 
@@ -107,5 +109,5 @@ NvPrintHists ==
   \A h \in NvHists :
     PrintT(<<"NESTHIST", ToJson([pre |-> h.pre, fin |-> h.fin, trig |-> h.trig, steps |-> NvHist(h.pre, h.fin, h.trig)])>>)
 
-ASSUME NvPrintHists /\ NvPrintCases(NvPaths1, 1) /\ NvPrintCases(NvPaths2, 2)
+ASSUME NvPrintHists /\ NvPrintCases({<<>>}, 0) /\ NvPrintCases(NvPaths1, 1) /\ NvPrintCases(NvPaths2, 2)
 =============================================================================
